@@ -198,6 +198,30 @@ def run_cfg(arg):
   return n, len(shapes), bad
 
 
+_coll = {}
+
+
+def colliding_nodes(hash_type):
+  """Two destinations on different servers whose NODE hashes (carbonHash(str((server, instance))), 16 bits) are equal:
+  the fast ring sorts nodes by that hash, so this is the tie case of its table."""
+  if hash_type not in _coll:
+    env.boot()
+    from carbon.hashing import carbonHash
+    seen = {}
+    found = None
+    for i in range(200000):
+      node = ('10.0.%d.%d' % (1 + i % 2, 1 + (i // 2) % 3), 'i%d' % i)
+      h = carbonHash(str(node), hash_type)
+      if h in seen and seen[h][0] != node[0]:
+        found = (seen[h], node)
+        break
+      seen.setdefault(h, node)
+    if found is None:
+      raise core.HarnessError('C05: no colliding node pair found for %s' % hash_type)
+    _coll[hash_type] = [(found[0][0], 2004, found[0][1]), (found[1][0], 2004, found[1][1])]
+  return _coll[hash_type]
+
+
 def configs(ctx):
   sizes = ctx.pick((1, 2, 3, 8), (1, 2, 3, 4, 5, 6, 7, 8))
   out = []
@@ -217,6 +241,14 @@ def configs(ctx):
               for diverse in (False, True):
                 out.append({'dests': [UNIVERSE[i] for i in order], 'rf': rf, 'diverse': diverse,
                             'hash': hash_type, 'router': router})
+  # destinations whose node hashes collide (the tie case of the fast ring's sorted table)
+  for hash_type in ('carbon_ch', 'fnv1a_ch'):
+    pair = colliding_nodes(hash_type)
+    for dests in (pair, pair + [UNIVERSE[0]], [UNIVERSE[3]] + pair):
+      for router in ROUTERS:
+        for rf in (1, 2, 3):
+          for diverse in (False, True):
+            out.append({'dests': list(dests), 'rf': rf, 'diverse': diverse, 'hash': hash_type, 'router': router, 'static': True})
   return out
 
 
@@ -229,6 +261,8 @@ def run(ctx):
   # and full sets; quick = a fixed slice (every one- and two-destination set, RF 1..4)
   def full(cfg):
     k = len(cfg['dests'])
+    if any(d not in UNIVERSE for d in cfg['dests']):
+      return 'fast' in cfg['router'] and (k == 2 or ctx.thorough)     # the colliding-node configurations
     canonical = cfg['dests'] == sorted(cfg['dests'], key=UNIVERSE.index)
     if not canonical:
       return False
